@@ -202,7 +202,7 @@ CLAIMED = {
         "technique": "Coq proof (substitution lemma over an identity-addressed document model; refinement to plain data by induction over the history) + differential correspondence",
     },
     "C16": {
-        "text": ("18 theorems (Coq, no axioms) over a model of the glue of the six console entry points as total "
+        "text": ("34 theorems (Coq, no axioms) over a model of the glue of the six console entry points as total "
                  "functions of the parsed options, the loader's outcome per input and the library-level results "
                  "(abstract inputs): yaml-get exit 0 iff >= 1 node and one rendering per matched node in order; "
                  "yaml-diff exit 0 iff no non-SAME entry and prints the selected entries; yaml-validate exit 0 iff "
@@ -210,7 +210,11 @@ CLAIMED = {
                  "pairwise merges or nothing on any non-zero ending; yaml-set delivers exactly the library "
                  "post-state or nothing; yaml-paths prints exactly the results; main is a function of the loaded "
                  "documents, so file vs STDIN delivery cannot change the outcome (empty-stream witness kept as "
-                 "_refuted).  JSON/YAML text, argparse and the library results are oracles.  Tie: the real main() "
+                 "_refuted).  End-to-end corollaries instantiate the abstract results with the library MODELS: "
+                 "yaml-get's lines = one rendering per item of the evaluator model's required query, exit 0 iff "
+                 "non-empty; yaml-diff exit 0 iff the two documents are data-equal (under C06's guards); "
+                 "merge_across / matrix deliver what MultiDoc.v's drivers return (reusing C18); yaml-paths prints "
+                 "PathsPrint's lines.  JSON/YAML text and argparse are oracles.  Tie: the real main() "
                  "functions in-process (and the installed console scripts in the thorough tier) vs glue model "
                  "applied to the real library's results."),
         "design_ref": "DESIGN.md section 4 (C16), docs/C16.md",
@@ -256,17 +260,22 @@ CLAIMED = {
         "technique": "Coq proof (fuel sufficiency; loop invariant over common anchor names) + differential correspondence + dump/reload judge",
     },
     "C15": {
-        "text": ("Theorems C15_required_only_ype / C15_exists_only_ype / C15_optional_only_ype (Coq, no axioms): for "
-                 "every document, every prepared path of the collector-free fragment and all answering oracles the "
-                 "stream of a required query, of exists() and of an optional query ends normally or with a "
-                 "YAMLPathException (optional: or at the node creation reported by the creator parameter) -- never "
-                 "IndexError/TypeError/KeyError/AttributeError/NotImplementedError and never out of fuel (path fuel "
-                 "S(pweight p) and data fuel S(vsize v) proved sufficient).  Model: processor.py query side after six "
-                 "fix: commits, generators as streams.  Collectors and keyword segments are covered by the "
-                 "correspondence run and the judge only (F25 known finding: '(a)b' raises NotImplementedError)."),
+        "text": ("13 theorems (Coq, no axioms) over the evaluator model with the keyword model plugged in "
+                 "(EvalKw.v): for every document, every prepared path of the fragment INCLUDING keyword-search "
+                 "segments at any position, and all answering oracles, the stream of a required query, of exists() "
+                 "and of an optional query ends normally or with a YAMLPathException (optional: or at the node "
+                 "creation reported by the creator parameter) - never IndexError / TypeError / KeyError / "
+                 "AttributeError / NotImplementedError and never out of fuel (path fuel and data fuel proved "
+                 "sufficient); C15_kw_handler_clean discharges the former assumption about the keyword handler "
+                 "for all data, contexts and parameter texts (unhashable members end in YPE after the repair); "
+                 "collectors: the same under the computable guard kc_fragment (leading collector chain whose "
+                 "operands select scalars - the property's own restriction), with C15_collector_nonscalar_refuted "
+                 "and C15_collector_text_refuted (listed finding F25).  Tie: exhaustive small documents x paths "
+                 "with indexes / slice bounds negative, in range, out of range, all search forms, keyword "
+                 "segments at every position, scalar collectors; required / optional / exists()."),
         "design_ref": "DESIGN.md section 4 (C15), docs/C15.md",
-        "note": NOTE_COMMON,
-        "technique": "Coq proof (stream invariant over a fuelled evaluator model, fuel sufficiency) + differential correspondence",
+        "note": NOTE_COMMON + "  Python's recursion limit cannot be exhibited by a Gallina model (deep documents are run on the implementation only).",
+        "technique": "Coq proof (stream invariant over a fuelled evaluator model with the keyword model plugged in; fuel sufficiency) + differential correspondence",
     },
     "C01": {
         "text": ("15 theorems (Coq, no axioms) over the evaluator model Eval.v (processor.py's query side, Python "
